@@ -102,6 +102,20 @@ class Ctx(object):
         self.violations = []               # (bucket, message, case)
         self.extra = {}
         self.inconclusive = 0
+        self.ambient = {}                  # run-time switches of pbt/ambient.py (thread hop, gc pressure)
+        self._calls = 0
+
+    def _call(self, fn, *args):
+        """Call an oracle; under the ambient perturbations every other call is made from a fresh thread and the
+        collector is run now and then."""
+        self._calls += 1
+        if self.ambient.get("gc") and self._calls % 64 == 0:
+            import gc
+            gc.collect()
+        if self.ambient.get("thread") and self._calls % 2 == 1:
+            from . import ambient
+            return ambient.hop(fn, *args)
+        return fn(*args)
 
     # -- counting ------------------------------------------------------
     def case(self, key, nontrivial=True, sample=None, cls=None):
@@ -139,7 +153,7 @@ class Ctx(object):
         """Run oracle *fn(ctx, case, ...)*; turn a Violation or an exception
         that comes out of the library into a recorded violation."""
         try:
-            fn(self, case, *args)
+            self._call(fn, self, case, *args)
         except Violation as v:
             self.violation(v.bucket, v.message, v.case if v.case is not None else case)
         except Exception as e:  # noqa
@@ -177,7 +191,7 @@ class Ctx(object):
             @given(strategy)
             def t(value):
                 try:
-                    fn(self, value)
+                    self._call(fn, self, value)
                 except Violation as v:
                     if self.skip_bucket(v.bucket):
                         return
@@ -246,6 +260,10 @@ def _run_task(args):
         mod = importlib.import_module(modname)
         name, fn, kw = mod.tasks(tier)[idx]
         ctx = Ctx(prop, name, tier, seed, excluded, shared)
+        from . import ambient
+        on = ambient.choose(seed, prop, name, mod)
+        ctx.ambient = ambient.enter(on, seed, prop, name, REPO)
+        ctx.extra["ambient"] = on
         try:
             fn(ctx, **kw)
         except Violation as v:
@@ -257,7 +275,9 @@ def _run_task(args):
             ctx.violation("exc:%s:%s" % (type(e).__name__, fr),
                           "%s: %s (escaped task %s)" % (type(e).__name__, e, name),
                           {"task": name, "traceback": traceback.format_exc()[-2000:]})
+        ambient.leave(ctx.ambient)
         r = ctx.result()
+        r["ambient"] = on
         r["wall_s"] = time.time() - t0
         return r
     except BaseException:  # noqa
@@ -282,6 +302,9 @@ def _probe_known(args):
     prop, modname, entry, tier, seed, shared = args
     mod = importlib.import_module(modname)
     ctx = Ctx(prop, "known:" + entry["id"], tier, seed, [], shared)
+    if entry.get("ambient"):
+        from . import ambient
+        ctx.ambient = ambient.enter(entry["ambient"], seed, prop, entry.get("task", ""), REPO)
     try:
         ctx.check(lambda c, case: mod.replay(c, case), entry["reproducer"])
     except Exception:  # noqa
@@ -326,7 +349,8 @@ def main(argv=None):
         with open(a.replay) as f:
             rp = json.load(f)
         with mp.Pool(1) as p0:
-            r = p0.apply(_probe_known, ((prop, modname, dict(id="replay", reproducer=rp["case"]),
+            r = p0.apply(_probe_known, ((prop, modname, dict(id="replay", reproducer=rp["case"], ambient=rp.get("ambient"),
+                                                           task=rp.get("task", "")),
                                          a.tier, seed, shared),))
         if "error" in r:
             print(r["error"])
@@ -388,6 +412,7 @@ def main(argv=None):
     per_task = {}
     extra = {}
     violations = {}
+    ambient_of = {}
     inconclusive = 0
     for b, m, c in regressions:
         if b not in excluded:
@@ -412,7 +437,10 @@ def main(argv=None):
         for k, v in r["extra"].items():
             extra.setdefault(r["task"], {})[k] = v
         for b, m, c in r["violations"]:
+            if r.get("ambient"):
+                m = "%s [ambient process state of this task: %s]" % (m, ",".join(r["ambient"]))
             violations.setdefault(b, (m, {"task": r["task"], "case": c}, r["task"]))
+            ambient_of[b] = r.get("ambient") or []
 
     # spread the samples over the tasks
     picked, seen = [], {}
@@ -434,7 +462,8 @@ def main(argv=None):
         case = c["case"] if isinstance(c, dict) and set(c) == {"task", "case"} else c
         with open(path, "w") as f:
             json.dump({"property": prop, "bucket": b, "message": m, "task": tname,
-                       "seed": seed, "tier": a.tier, "case": case}, f, indent=1, default=repr)
+                       "seed": seed, "tier": a.tier, "ambient": ambient_of.get(b, []), "case": case},
+                      f, indent=1, default=repr)
         print("VIOLATION property=%s replay=%s bucket=%s :: %s" % (prop, path, b, str(m)[:300]))
         rc = 1
 
